@@ -235,10 +235,6 @@ func genDecl(r *hx.Rng, g *lineGen, usedKeys map[string]bool) {
 		if g.weird && r.Chance(1, 4) {
 			o.single = int64(hx.Pick(r, weirdSingles))
 			g.risky = true
-			// an option named U+FFFD that takes a value makes the code panic on an invalid byte (slice bounds): excluded
-			if !o.isBool && string(rune(o.single)) == "\uFFFD" {
-				o.single = 'ß'
-			}
 		} else {
 			o.single = int64(hx.Pick(r, singlePool))
 		}
